@@ -44,6 +44,15 @@ def _chain(v):
     return names, cur
 
 
+def _is_substitution(x) -> bool:
+    """a regex substitution result: re.sub(...) / re.subn(...) or <compiled pattern>.sub(...)"""
+    if not (isinstance(x, Sym) and x.origin):
+        return False
+    if x.origin[0] == "call" and str(x.origin[1]).split(".")[-1] in ("sub", "subn"):
+        return True
+    return x.origin[0] == "method" and x.origin[2] in ("sub", "subn")
+
+
 def _parse_arg(tr):
     e = [x for x in tr.path.effects if x[0] == "parse-user"]
     return e[0][1] if e else None
@@ -77,8 +86,7 @@ def rule_client_side(ctx):
                             if names[:3] != ["quote", "escape", "to_snowflake"] or end is not leaf:
                                 probs.append(f"bound value {leaf.tag} reaches the text as `{tagof(it)[:70]}`, not quote(escape(to_snowflake(value)))")
                     # C08.b: inlining happened on the left operand only, before substitution
-                    inl_left = any(isinstance(x, Sym) and x.origin and x.origin[0] == "call" and "re.sub" in str(x.origin[1])
-                                   for x in _prov_nodes(left))
+                    inl_left = any(_is_substitution(x) for x in _prov_nodes(left))
                     if not inl_left:
                         probs.append("session variables are not inlined into the command before parameters are substituted")
                     for leaf in leaves:
